@@ -173,7 +173,7 @@ fn is_del(e: &SignedEntry) -> bool {
 
 /// The reference answer(s): all acceptable result lists (more than one only with timestamp ties
 /// in latest-per-key) and whether the pre-window answer is non-empty.
-fn reference(dump: &[SignedEntry], q: &Q) -> (Vec<Vec<SignedEntry>>, bool) {
+pub fn reference(dump: &[SignedEntry], q: &Q) -> (Vec<Vec<SignedEntry>>, bool) {
     let window = |mut v: Vec<SignedEntry>| -> Vec<SignedEntry> {
         if q.desc {
             v.reverse();
